@@ -99,7 +99,7 @@ int main(int argc, char** argv) {
             {"--alpha0", "0.005", "-V", "1.2e6", "-n", "7", "--RenormalizeCharge", "3", "--FPType", "1", "--FPTrack", "2"},
             {"-c", cur}, {"-c", cur, "-f", "8000", "-N", "900"},
             {"-c", leg}, {"-c", leg, "-f", "8000"}, {"-c", leg, "-V", "1.1e6", "-N", "700"},
-            {"-F", "2715563.7", "-E", "1.2345678e9", "-I", "0.00123456789", "0.000987654321", "-f", "8765.4321", "--alpha1", "0.0123456789", "-T", "3.14159265", "-d", "0.0123456789",
+            {"-F", "2715563.7", "-E", "1.2345678e9", "-I", "0.00123456789", "0.000987654321", "-f", "8765.4321", "--alpha1", "0.0123456789", "-T", "3.14159265", "-d", "0.010432118746123",
              "-V", "1234567.89", "--CutoffFreq", "2.3456789e10", "--VacuumGap", "0.0323456789", "--InitialDistZoom", "1.23456789"},
             {"--PhaseSpaceShiftX", "5", "--PhaseSpaceShiftY", "-3", "--padding", "4", "--RoundPadding", "0", "--InterpolationPoints", "3", "--derivation", "4"}};
         int si = 0;
